@@ -114,6 +114,16 @@ class P:
             self.eat(">")
             return "W64"
         if v == "Self":
+            if self.at("::") and self.peek(1)[1] == "Output":
+                self.next()
+                self.next()
+            return "Self"
+        if v == "Uint":
+            self.eat("<")
+            self.eat("BITS")
+            self.eat(",")
+            self.eat("LIMBS")
+            self.eat(">")
             return "Self"
         if v == "Ordering":
             return "ordering"
@@ -522,6 +532,7 @@ def paren(s):
 
 class Tr:
     def __init__(self):
+        self.shiftops = {}  # '<<' -> 'wrapping_shl' ... from the impl_shift! macro arm for primitive amounts
         self.binops = {}    # '+' -> 'wrapping_add' ... from the impl_bin_op! invocations
         self.opmethods = {} # 'add' -> 'wrapping_add' ...
         self.uconsts = {}   # associated consts of Uint: name -> (type, initialiser AST), inlined at use
@@ -694,6 +705,16 @@ class Tr:
             return b1, "(%s %s %s)" % (paren(a1), op, paren(a2)), "bool"
         if op in ("<<", ">>"):
             b1, a1, t1 = self.ex(f, x, env, want)
+            if t1 == "uint":
+                # `Uint << usize`: the method named in impl_shift!'s `fn shl(self, rhs: $u)` arm
+                meth = self.shiftops.get(op)
+                if not meth or "U." + meth not in self.sigs:
+                    raise Unsupported("shift operator on Uint")
+                b2, a2, t2 = self.ex(f, y, env, "usize")
+                if t2 not in ("usize", "lit"):
+                    raise Unsupported("Uint shifted by a non-usize")
+                b3, a3, t3 = self.apply(f, "U." + meth, [("__atom", paren(a2))], env, recv=("__atom", paren(a1)))
+                return b1 + b2 + b3, a3, t3
             if y[0] == "num":
                 s = y[1]
                 if not (0 <= s < WIDTH[t1]):
@@ -749,6 +770,10 @@ class Tr:
                 pat = {"<": "Lt => true | _ => false", ">": "Gt => true | _ => false",
                        "<=": "Gt => false | _ => true", ">=": "Lt => false | _ => true"}[op]
                 return bs + b3, "(match %s with %s end)" % (a3, pat), "bool"
+            if op in ("|", "&", "^") and "U." + {"|": "bitor", "&": "bitand", "^": "bitxor"}[op] in self.sigs:
+                nm = "U." + {"|": "bitor", "&": "bitand", "^": "bitxor"}[op]
+                b3, a3, t3 = self.apply(f, nm, [("__atom", paren(a2))], env, recv=("__atom", paren(a1)))
+                return bs + b3, a3, t3
             if op in self.binops:           # impl_bin_op!(Add, add, AddAssign, add_assign, wrapping_add)
                 b3, a3, t3 = self.apply(f, "U." + self.binops[op], [("__atom", paren(a2))], env, recv=("__atom", paren(a1)))
                 return bs + b3, a3, t3
@@ -1098,6 +1123,9 @@ class Tr:
             return br + b, "(Z.compare %s %s)" % (paren(ar), paren(a)), "ordering"
         if m == "len" and isinstance(tr_, tuple) and tr_[0] in ("slice", "arr"):
             return br, "(lenZ %s)" % paren(ar), "usize"
+        if m == "saturating_sub" and tr_ in ("usize", "u64") and len(args) == 1:
+            b, a, t = self.ex(f, args[0], env, tr_)
+            return br + b, "(Z.max 0 (%s - %s))" % (paren(ar), paren(a)), tr_
         if m in ("wrapping_add", "wrapping_sub", "wrapping_mul"):
             b, a, t = self.ex(f, args[0], env, tr_)
             op = {"wrapping_add": "+", "wrapping_sub": "-", "wrapping_mul": "*"}[m]
@@ -1176,6 +1204,12 @@ class Tr:
                 elif s[0] == "expr" and s[1][0] == "mcall" and s[1][1][0] == "var" \
                         and 0 in self.sigs.get("U." + s[1][2], (0, 0, 0, 0, set()))[4]:
                     lhs(s[1][1])
+                if s[0] == "expr" and s[1][0] == "call" and s[1][1][0] == "path" and s[1][1][1][0] == "u64" \
+                        and s[1][1][1][-1] in ("bitor_assign", "bitand_assign", "bitxor_assign"):
+                    t0 = s[1][2][0]
+                    while t0[0] == "un":
+                        t0 = t0[2]
+                    lhs(t0)
                 for x in ([s[-1]] if s[0] in ("let", "assign", "expr") else []):
                     self.kernel_targets(x, lhs)
                     self.callee_targets(x, lhs)
@@ -1598,6 +1632,13 @@ class Tr:
                         raise Unsupported("match statement arm")
                     arms.append("| %s => %s" % (ps, code))
                 return "%s match %s with %s end" % (" ".join(bs), a, " ".join(arms))
+            if e[0] == "call" and e[1][0] == "path" and e[1][1][0] == "u64" and len(e[1][1]) == 2 \
+                    and e[1][1][1] in ("bitor_assign", "bitand_assign", "bitxor_assign") and len(e[2]) == 2:
+                op = {"bitor_assign": "|", "bitand_assign": "&", "bitxor_assign": "^"}[e[1][1][1]]
+                tgt = e[2][0]
+                while tgt[0] == "un" and tgt[1] in ("&", "*"):
+                    tgt = tgt[2]
+                return self.stmts(f, [("assign", tgt, op, e[2][1])] + ss[i + 1:], 0, env, fin, retty)
             if e[0] == "mcall" and e[2] in ("copy_from_slice", "copy_within", "fill"):
                 recv = e[1]
                 f.impure = True
@@ -1797,6 +1838,15 @@ TARGETS = [
     ("src/bits.rs", UINT_IMPL, "wrapping_shl", "U.wrapping_shl", "g_wrapping_shl", "uint"),
     ("src/bits.rs", UINT_IMPL, "checked_shr", "U.checked_shr", "g_checked_shr", "uint"),
     ("src/bits.rs", UINT_IMPL, "wrapping_shr", "U.wrapping_shr", "g_wrapping_shr", "uint"),
+    ("src/bits.rs", "macro:impl_bit_op|fn $fn_assign(&mut self, rhs: &Uint<BITS, LIMBS>)|$fn_assign=bitor_assign", "bitor_assign", "U.bitor_assign", "g_bitor_assign", "uint"),
+    ("src/bits.rs", "macro:impl_bit_op|fn $fn_assign(&mut self, rhs: &Uint<BITS, LIMBS>)|$fn_assign=bitand_assign", "bitand_assign", "U.bitand_assign", "g_bitand_assign", "uint"),
+    ("src/bits.rs", "macro:impl_bit_op|fn $fn_assign(&mut self, rhs: &Uint<BITS, LIMBS>)|$fn_assign=bitxor_assign", "bitxor_assign", "U.bitxor_assign", "g_bitxor_assign", "uint"),
+    ("src/bits.rs", "macro:impl_bit_op|fn $fn(mut self, rhs: Uint<BITS, LIMBS>)|$fn=bitor", "bitor", "U.bitor", "g_bitor", "uint"),
+    ("src/bits.rs", "macro:impl_bit_op|fn $fn(mut self, rhs: Uint<BITS, LIMBS>)|$fn=bitand", "bitand", "U.bitand", "g_bitand", "uint"),
+    ("src/bits.rs", "macro:impl_bit_op|fn $fn(mut self, rhs: Uint<BITS, LIMBS>)|$fn=bitxor", "bitxor", "U.bitxor", "g_bitxor", "uint"),
+    ("src/bits.rs", UINT_IMPL, "arithmetic_shr", "U.arithmetic_shr", "g_arithmetic_shr", "uint"),
+    ("src/bits.rs", UINT_IMPL, "rotate_left", "U.rotate_left", "g_rotate_left", "uint"),
+    ("src/bits.rs", UINT_IMPL, "rotate_right", "U.rotate_right", "g_rotate_right", "uint"),
     ("src/special.rs", UINT_IMPL, "is_power_of_two", "U.is_power_of_two", "g_is_power_of_two", "uint"),
     ("src/cmp.rs", "Ord for Uint<BITS, LIMBS>", "cmp", "U.cmp", "g_cmp", "uint"),
     ("src/div.rs", UINT_IMPL, "div_rem", "U.div_rem", "g_div_rem", "uint"),
@@ -1850,9 +1900,38 @@ def translate(repo):
             if m.group(1) in SYM:
                 tr.binops[SYM[m.group(1)]] = m.group(3)
                 tr.opmethods[m.group(2)] = m.group(3)
+    try:
+        bt = open(os.path.join(repo, "src/bits.rs")).read()
+        mi = bt.find("macro_rules! impl_shift")
+        if mi >= 0 and re.search(r"impl_shift!\(\s*usize\b", bt):
+            for opname, sym in (("shl", "<<"), ("shr", ">>")):
+                m = re.search(r"fn %s\(self, rhs: \$u\) -> Self::Output \{\s*self\.(\w+)\(rhs as usize\)\s*\}" % opname, bt[mi:])
+                if m:
+                    tr.shiftops[sym] = m.group(1)
+    except OSError:
+        pass
     for rel, marker, fname, cname, gname, selfty in TARGETS:
         try:
             txt = open(os.path.join(repo, rel)).read()
+            if marker and marker.startswith("macro:"):
+                # one arm of a macro_rules! definition, instantiated as the invocation in the file does
+                mname, header, sub = marker[6:].split("|")
+                k, v = sub.split("=")
+                if not re.search(r"\b%s!\([^)]*\b%s\b[^)]*\)" % (mname, v), txt):
+                    raise Unsupported("no invocation %s!(.. %s ..)" % (mname, v))
+                mi = txt.find("macro_rules! " + mname)
+                hj = txt.find(header, mi) if mi >= 0 else -1
+                if hj < 0:
+                    raise Unsupported("macro arm %r not found" % header)
+                src = fn_text(txt[hj:].replace(k, v), fname)
+                n0 = len(tr.out)
+                try:
+                    pure = tr.function(cname, gname, src, selfty)
+                except Unsupported:
+                    del tr.out[n0:]
+                    raise
+                status[gname] = "pure" if pure else "outcome"
+                continue
             if fname.startswith("const:"):
                 # an associated const: its initialiser is translated as a nullary function
                 m = re.search(r"\bconst\s+%s\s*:\s*Self\s*=" % fname[6:], txt)
